@@ -20,7 +20,7 @@ DEFAULT_PROFILE = dict(
     n_ops=(0, 2, 5, 10, 20, 40), horizon=(5, 10, 10, 20, 40),
     fault_kinds=('fail', 'shutdown', 'restore', 'wo', 'addres', 'block', 'adjust', 'rewire',
                  'offset', 'ct', 'wake', 'trywork'),
-    p_split=0.3, p_nested=0.25, p_fanin=0.5, callbacks=True, starve=True,
+    p_split=0.3, p_nested=0.25, p_trace=0.0, p_fanin=0.5, callbacks=True, starve=True,
     fail_down_bias=0.0,
 )
 
@@ -43,7 +43,7 @@ PROFILES = {
     'c13': dict(kinds=dict(handler=3, proc=7, buffer=2, batcher=0, gates=1, path=1),
                 fault_kinds=('fail', 'shutdown', 'restore', 'wo', 'fail', 'shutdown', 'restore', 'wo', 'block', 'wake', 'offset'),
                 n_ops=(2, 5, 10, 20, 40), p_maintainer=0.8, fail_down_bias=0.3),
-    'c15': {},
+    'c15': dict(p_trace=0.25, p_maintainer=0.7),
     'c16': dict(p_maintainer=0.8, p_batch_source=0.4),
     'c17': dict(kinds=dict(handler=2, proc=2, buffer=3, batcher=6, gates=0.5, path=0.5), p_batch_source=0.7,
                 p_empty_batch=0.3, fault_kinds=('fail', 'shutdown', 'restore', 'block', 'adjust', 'wake', 'addres')),
@@ -277,6 +277,8 @@ def gen_spec(rng, profile_name='default'):
     spec['ops'] = gen_ops(rng, spec, P, horizon)
     spec['tiebreak'] = core.gen_tiebreak(rng)
     spec['id_offset'] = rng.choice((0, 0, 7, 1000, 123456))
+    if rng.random() < P['p_trace']:
+        spec['trace'] = True
     return spec
 
 
